@@ -987,4 +987,33 @@ example : paddedLen 7 3 = 9 ∧ paddedLen 9 3 = 9 ∧ simplify 441 160 = (441, 1
 40 outputs ≥ 7 + 30 -/
 example : resampleSizes 11 5 2 7 = (12, 30, 3, 16) := by decide
 
+/-! ## FIRResampler -/
+
+/-- **FIRResampler(p, q, h)** (reduced ratio `p ≠ q`, first call from rest; later calls: the three `*_eq` theorems
+through `rs_init_cases`): a frame that is a multiple of `q` gives exactly the samples at a fixed phase of the textbook
+chain — for `p = 1` the decimator's (flipped padded filter, phase `q-1`), otherwise sample `(o+1)q - 1` of
+"insert `p-1` zeros, filter with `h` normalised to DC gain `p`" (for `q = 1` this is phase 0 with no decimation). -/
+theorem resampler_eq_from_rest (p q : ℕ) (hp : 0 < p) (hq : 0 < q) (hc : Nat.Coprime p q) (hne : p ≠ q)
+    (h : Array ℝ) (hh : 0 < h.size) (hs : hsum h ≠ 0) (x : Array ℝ) (hx : x.size % q = 0) :
+    ∃ s', (Rs.init p q h).process x =
+      .ok (s', if p = 1 then tab (x.size / q) fun i => fir (paddedLen h.size q) (hflip h q) (elem x) (i * q + (q - 1))
+               else tab (x.size / q * p) fun o => upfir p h x ((o + 1) * q - 1)) := by
+  rcases rs_init_cases p q hp hq hc hne h with ⟨h1, _, e⟩ | ⟨h1, h2, e⟩ | ⟨h1, _, e⟩
+  · obtain ⟨s', hs'⟩ := decim_eq_from_rest q hq h hh hs x hx
+    refine ⟨.dec s', ?_⟩
+    rw [e, if_pos h1]
+    simp only [Rs.process, hs']
+    rfl
+  · refine ⟨.int ((Interp.init p h).process x).1, ?_⟩
+    rw [e, if_neg (by omega)]
+    simp only [Rs.process]
+    rw [interp_eq_from_rest p hp h hh hs x]
+    subst h1
+    simp
+  · obtain ⟨s', hs'⟩ := rateconv_eq_from_rest p q hp hq h hh hs x hx
+    refine ⟨.rc s', ?_⟩
+    rw [e, if_neg (by omega)]
+    simp only [Rs.process, hs']
+    rfl
+
 end Dsp.C08
